@@ -146,6 +146,9 @@ class AlgEval(object):
                 return self.ev(e.args[0])
             if name == 'Fraction' and len(e.args) == 2:
                 return self.ev(e.args[0]) / self.ev(e.args[1])
+            if name == 'limit_denominator' and isinstance(e.func, ast.Attribute) and len(e.args) <= 1:
+                # the nearest fraction with a bounded denominator: for the entries of the unit table (powers of ten) that is the entry itself, written exactly
+                return self.ev(e.func.value)
             r = self.leaf(e)
             if r is not None:
                 return r
